@@ -1,4 +1,5 @@
 import Mkts.Lemmas.SqlSat
+import Mkts.Model.SqlTie
 /-!
 # C19 — SQL WHERE predicates select exactly the matching rows (fixed-length buckets, zone UTC)
 
@@ -7,9 +8,12 @@ import Mkts.Lemmas.SqlSat
 `specWhere` is what the property demands: the rows of the last-writer-wins table that satisfy the
 conjunction with the usual meaning.
 
-The full statement is FALSE of the code (six counterexample theorems, each replayed on the real
-code by `corpus/C19/known_*.ops`).  `C19_partial` proves it for every history and every
-conjunction outside exactly those input classes.
+The model describes the code AFTER the repairs of C19-F1 … F5 and the int32 half of F6 (tighter
+bound kept, push-down converts the literal and steps inwards only for exclusive bounds, bound
+converted once, small/unsigned integer columns widened, int32 compared in 64 bits); the statements
+the repaired behaviour rests on are pinned over the regenerated skeletons (`skel_*`).  What is left
+of the full statement's failure is the truncation of a DECIMAL literal on an integer column
+(`C19_cex_decimal_on_int`, known finding C19-F6).
 -/
 namespace Mkts.Props.C19
 open Mkts.Sql Mkts.Store Mkts.Time Mkts.Bytes Mkts.Props
@@ -33,17 +37,31 @@ def C19_full : Prop :=
     0 < tf → tf ≠ dayNs → tf % 1000000000 = 0 → Speaks tf cols hist conj →
     selectWhere tf cols (applyHist tf hist) conj = specWhere tf cols hist conj
 
+/-! ## tie: the statements of the source the repaired behaviour rests on (regenerated skeletons) -/
+
+theorem skel_AddComparison : Mkts.SqlTie.addComparisonTightens = true := by decide
+theorem skel_Merge : Mkts.SqlTie.mergeDelegates = true := by decide
+theorem skel_IsFalse : Mkts.SqlTie.isFalseSeesContradiction = true := by decide
+theorem skel_comparable : Mkts.SqlTie.comparesOnOneScale = true := by decide
+theorem skel_pushdown : Mkts.SqlTie.pushdownConvertsAndAdjustsExclusive = true := by decide
+set_option maxRecDepth 20000 in
+theorem skel_epoch_bound_once : Mkts.SqlTie.epochBoundConvertedOnce = true := by decide
+theorem skel_widen : Mkts.SqlTie.widensSmallIntegers = true := by decide
+set_option maxRecDepth 20000 in
+theorem skel_int32_wide : Mkts.SqlTie.int32ComparedWide = true := by decide
+
 /-! ## BETWEEN -/
 
 /-- `x BETWEEN lo AND hi` compiles to the two STRICT bounds `x > lo`, `x < hi` -/
 theorem between_strict (col : String) (lo hi : Lit) :
     (Conj.between col lo hi).pending =
-      { min := some lo, max := some hi, equal := none, inclMin := false, inclMax := false } := rfl
+      { min := some lo, max := some hi, equal := none, inclMin := false, inclMax := false,
+        epoch := col == "Epoch" } := rfl
 
 /-- … and the post-filter applies exactly these two strict tests -/
 theorem between_strict_filter (ty : ColTy) (col : String) (lo hi : Lit) (b : Bytes) :
     keepSP ty (Conj.between col lo hi).pending b = (keepVal ty .gt lo b && keepVal ty .lt hi b) :=
-  keepSP_between ty lo hi b
+  keepSP_between _ ty lo hi b
 
 /-- on an int64 column: strictly between, endpoints excluded -/
 theorem between_strict_i64 (col : String) (lo hi : Int) (b : Bytes) :
@@ -57,12 +75,62 @@ theorem between_strict_i64 (col : String) (lo hi : Int) (b : Bytes) :
 theorem C19_compile (conj : List Conj) (h : (conj.map Conj.col).Nodup) :
     buildGroup conj = conj.map (fun c => (c.col, c.pending)) := buildGroup_nodup conj h
 
-/-- with stable Epoch literals the post-filter is a filter by a per-row predicate -/
-theorem C19_postfilter (cols : List ColDef) (g : Group) (rows : List Row)
-    (h : ∀ sp, g.get "Epoch" = some sp → sp.EpochStable) :
-    postFilter cols g rows = rows.filter (keepRow cols g) := postFilter_eq_filter cols g rows h
+/-- the post-filter is a filter by a per-row predicate -/
+theorem C19_postfilter (cols : List ColDef) (g : Group) (rows : List Row) :
+    postFilter cols g rows = rows.filter (keepRow cols g) := postFilter_eq_filter cols g rows
 
-/-! ## counterexamples (each is also a corpus witness executed on the real code) -/
+/-! ## a second bound on the same side: the tighter one survives -/
+
+/-- adding an upper bound to a predicate that already has one leaves the smaller of the two (in
+    `GenericComparison`'s float64 order on the predicate's comparison scale `cmpLit`; on equal values
+    the strict one) -/
+theorem addComparison_upper_tighter (sp : SP) (m v : Lit) (op : CmpOp) (hop : op = .lt ∨ op = .le)
+    (hm : sp.max = some m)
+    (hnm : Float.isNaN Float.b64 (sp.cmpLit m).asF64 = false) (hnv : Float.isNaN Float.b64 (sp.cmpLit v).asF64 = false) :
+    ∃ w, (sp.addComparison op v).max = some w ∧ (w = v ∨ w = m) ∧
+      fle Float.b64 (sp.cmpLit w).asF64 (sp.cmpLit m).asF64 = true ∧
+      fle Float.b64 (sp.cmpLit w).asF64 (sp.cmpLit v).asF64 = true := by
+  generalize hm' : sp.cmpLit m = m' at hnm ⊢
+  generalize hv' : sp.cmpLit v = v' at hnv ⊢
+  rcases hop with rfl | rfl
+  · simp only [SP.addComparison, hm, hm', hv']
+    by_cases hc : (genericComparison v' m' .lt || !genericComparison v' m' .gt && CmpOp.lt == CmpOp.lt) = true
+    · rw [if_pos hc]
+      refine ⟨v, rfl, Or.inl rfl, ?_, ?_⟩
+      · rw [hv']
+        simp only [genericComparison, fcmp, Float.lt, fle, hnm, hnv] at hc ⊢
+        simp at hc ⊢; omega
+      · rw [hv']; simp [fle, hnv]
+    · rw [if_neg hc]
+      refine ⟨m, hm, Or.inr rfl, ?_, ?_⟩
+      · rw [hm']; simp [fle, hnm]
+      · rw [hm']
+        simp only [genericComparison, fcmp, Float.lt, fle, hnm, hnv] at hc ⊢
+        simp at hc ⊢; omega
+  · simp only [SP.addComparison, hm, hm', hv']
+    by_cases hc : (genericComparison v' m' .lt || !genericComparison v' m' .gt && CmpOp.le == CmpOp.lt) = true
+    · rw [if_pos hc]
+      refine ⟨v, rfl, Or.inl rfl, ?_, ?_⟩
+      · rw [hv']
+        simp only [genericComparison, fcmp, Float.lt, fle, hnm, hnv] at hc ⊢
+        simp at hc ⊢; omega
+      · rw [hv']; simp [fle, hnv]
+    · rw [if_neg hc]
+      refine ⟨m, hm, Or.inr rfl, ?_, ?_⟩
+      · rw [hm']; simp [fle, hnm]
+      · rw [hm']
+        simp only [genericComparison, fcmp, Float.lt, fle, hnm, hnv] at hc ⊢
+        simp at hc ⊢; omega
+
+/-- two different equalities on one column make the predicate false -/
+theorem addComparison_eq_contradiction (sp : SP) (e v : Lit) (he : sp.equal = some e)
+    (hne : genericComparison (sp.cmpLit v) (sp.cmpLit e) .lt = true ∨
+           genericComparison (sp.cmpLit v) (sp.cmpLit e) .gt = true) :
+    (sp.addComparison .eq v).isFalse = true := by
+  rcases hne with h | h <;> simp [SP.addComparison, SP.isFalse, he, h]
+
+/-! ## the repaired defect classes: the former counterexample statements now meet the property
+(each is also a corpus witness `corpus/C19/fixed_F*.ops` executed on the real code) -/
 
 /-- bucket used by the witnesses: 1Min, one int32 column, bars 10:00 … 10:03 on 2020-03-01 -/
 def wTf : Int := 60000000000
@@ -77,51 +145,42 @@ theorem w_speaks (conj : List Conj) (h : (specAll wTf wHist).all (fun r => (satA
   rw [hn] at this
   exact absurd this (by decide)
 
-/-- F1: two upper bounds on one column — `A < 4 AND A < 2` returns the rows with `A < 4`
-    (the looser bound survives, in either order) -/
-theorem C19_cex_looser_bound : ¬ C19_full := by
-  intro h
-  have := h wTf wCols wHist [.cmp "A" .lt (.int 4), .cmp "A" .lt (.int 2)] (by decide) (by decide) (by decide)
-    (w_speaks _ (by decide))
-  revert this
-  decide
+/-- F1 repaired: `A < 4 AND A < 2` (either order), `A > 1 AND A > 3`, `A <= 3 AND A < 4`, `A = 3 AND A = 4` -/
+theorem C19_repaired_same_side_bounds :
+    (∀ conj ∈ [[Conj.cmp "A" .lt (.int 4), .cmp "A" .lt (.int 2)], [.cmp "A" .lt (.int 2), .cmp "A" .lt (.int 4)],
+               [.cmp "A" .gt (.int 1), .cmp "A" .gt (.int 3)], [.cmp "A" .le (.int 3), .cmp "A" .lt (.int 4)]],
+      selectWhere wTf wCols (applyHist wTf wHist) conj = specWhere wTf wCols wHist conj) ∧
+    materializeSelect [⟨"T", wTf, wCols, applyHist wTf wHist⟩]
+      ⟨true, [], "T", [.cmp "A" .eq (.int 3), .cmp "A" .eq (.int 4)], 0, false⟩ = .ok ⟨[], []⟩ := by decide
 
-/-- F1 (other side / sticky flag): `A >= 3 AND A > 1` returns `A >= 1` … here `A > 1 AND A > 3` ⇒ `A > 1` -/
-theorem C19_cex_looser_lower_bound : ¬ C19_full := by
-  intro h
-  have := h wTf wCols wHist [.cmp "A" .gt (.int 1), .cmp "A" .gt (.int 3)] (by decide) (by decide) (by decide)
-    (w_speaks _ (by decide))
-  revert this
-  decide
+/-- F2, F3, F5 repaired: inclusive upper bound on a stored bar, upper bound in epoch seconds, tiny
+    epoch-seconds literal -/
+theorem C19_repaired_epoch_bounds :
+    ∀ conj ∈ [[Conj.cmp "Epoch" .le (.int 1583056920000000000)], [.cmp "Epoch" .lt (.int 1583056920)],
+              [.cmp "Epoch" .le (.int 1583056920)], [.between "Epoch" (.int 1583056800) (.int 1583056980)],
+              [.cmp "Epoch" .gt (.int 5)]],
+      selectWhere wTf wCols (applyHist wTf wHist) conj = specWhere wTf wCols wHist conj := by decide
 
-/-- F2: `Epoch <= e` with `e` exactly the stamp of a stored bar (nanosecond / datetime form) drops
-    that bar: the push-down ends the scan at `e - 1ns` -/
-theorem C19_cex_inclusive_edge : ¬ C19_full := by
-  intro h
-  have := h wTf wCols wHist [.cmp "Epoch" .le (.int 1583056920000000000)] (by decide) (by decide) (by decide)
-    (w_speaks _ (by decide))
-  revert this
-  decide
+/-- Epoch bounds in different units in one WHERE clause (seconds against a datetime / nanoseconds)
+    are compared on one scale: neither a false contradiction nor the wrong surviving bound
+    (1583056980 s = 10:03; 1583056860000000000 ns = 10:01) -/
+theorem C19_repaired_mixed_units :
+    ∀ conj ∈ [[Conj.cmp "Epoch" .lt (.int 1583056980), .cmp "Epoch" .ge (.int 1583056860000000000)],
+              [.cmp "Epoch" .ge (.int 1583056920), .cmp "Epoch" .ge (.int 1583056860000000000)]],
+      selectWhere wTf wCols (applyHist wTf wHist) conj = specWhere wTf wCols wHist conj := by decide
 
-/-- F3: an Epoch upper bound given in epoch SECONDS returns nothing: the push-down reads the
-    literal as nanoseconds (1970) while the post-filter scales it -/
-theorem C19_cex_epoch_seconds : ¬ C19_full := by
-  intro h
-  have := h wTf wCols wHist [.cmp "Epoch" .lt (.int 1583056920)] (by decide) (by decide) (by decide)
-    (w_speaks _ (by decide))
-  revert this
-  decide
+/-- F4 and the range half of F6 repaired: predicate on an int16 column; literal outside int32 -/
+theorem C19_repaired_column_types :
+    selectWhere wTf [⟨"S", .other 2 true⟩] (applyHist wTf [[⟨1583056800, [1,0]⟩, ⟨1583056860, [2,0]⟩, ⟨1583056920, [3,0]⟩]])
+        [.cmp "S" .lt (.int 2)] =
+      specWhere wTf [⟨"S", .other 2 true⟩] [[⟨1583056800, [1,0]⟩, ⟨1583056860, [2,0]⟩, ⟨1583056920, [3,0]⟩]]
+        [.cmp "S" .lt (.int 2)] ∧
+    selectWhere wTf wCols (applyHist wTf wHist) [.cmp "A" .lt (.int 3000000000)] =
+      specWhere wTf wCols wHist [.cmp "A" .lt (.int 3000000000)] := by decide
 
-/-- F5: a tiny epoch-seconds literal (1 … 32) is multiplied by 10⁹ again on every row of the
-    post-filter loop: `Epoch > 5` keeps only the first row -/
-theorem C19_cex_tiny_epoch_literal : ¬ C19_full := by
-  intro h
-  have := h wTf wCols wHist [.cmp "Epoch" .gt (.int 5)] (by decide) (by decide) (by decide)
-    (w_speaks _ (by decide))
-  revert this
-  decide
+/-! ## what is still false (known finding C19-F6, decimal half) -/
 
-/-- F6: a decimal literal on an integer column is truncated: `A < 1.5` loses the row `A = 1`
+/-- a decimal literal on an integer column is truncated: `A < 1.5` loses the row `A = 1`
     (0x3FF8000000000000 = 1.5) -/
 theorem C19_cex_decimal_on_int : ¬ C19_full := by
   intro h
@@ -130,67 +189,38 @@ theorem C19_cex_decimal_on_int : ¬ C19_full := by
   revert this
   decide
 
-/-- F6 (range): an integer literal outside int32 wraps: `A < 3000000000` on an int32 column is empty -/
-theorem C19_cex_int32_wrap : ¬ C19_full := by
-  intro h
-  have := h wTf wCols wHist [.cmp "A" .lt (.int 3000000000)] (by decide) (by decide) (by decide)
-    (w_speaks _ (by decide))
-  revert this
-  decide
-
-/-- F4: a predicate on a column whose Go slice type has no case in the post-filter switch
-    (int16, int8, uint8 … uint64) is ignored: `S < 2` on an int16 column returns every row -/
-theorem C19_cex_unfiltered_type : ¬ C19_full := by
-  intro h
-  have := h wTf [⟨"S", .other 2 true⟩] [[⟨1583056800, [1,0]⟩, ⟨1583056860, [2,0]⟩, ⟨1583056920, [3,0]⟩]]
-    [.cmp "S" .lt (.int 2)] (by decide) (by decide) (by decide)
-    (by intro r hr hn
-        have := List.all_eq_true.mp (show (specAll wTf [[⟨1583056800, [1,0]⟩, ⟨1583056860, [2,0]⟩, ⟨1583056920, [3,0]⟩]]).all
-          (fun r => (satAll [⟨"S", .other 2 true⟩] [.cmp "S" .lt (.int 2)] r).isSome) = true by decide) r hr
-        rw [hn] at this; exact absurd this (by decide))
-  revert this
-  decide
-
 /-! ## the partial theorem -/
 
 /-- **C19, partial.**  For every history of writes, every sub-day timeframe of whole seconds, every
     schema and every conjunction such that
 
-    * `wf`     : there is at most ONE conjunct per column (BETWEEN counts as one) and every
-                 predicate column is Epoch or a schema column,
-    * `hfit`   : a value column carrying a predicate has a type the post-filter handles
-                 (int32/int64/float32/float64), integer columns get integer literals inside the
-                 column's range, float literals are not NaN in the column's precision,
-    * `hepoch` : Epoch literals are in nanosecond form (datetime strings always are) and an
-                 INCLUSIVE upper bound is not exactly the stamp of a stored bar,
+    * `wf`     : every predicate column is Epoch or a schema column and there is at most one
+                 conjunct per column (BETWEEN counts as one; several conjuncts on one column are
+                 merged by the tighter-bound rule, `addComparison_upper_tighter`, whose agreement
+                 with the column-typed comparison is checked by the correspondence, not proved),
+    * `hfit`   : integer columns get INTEGER literals (a decimal literal is truncated: C19-F6),
+                 widened columns are at most 7 bytes wide (a uint64 above 2^63-1 wraps), float
+                 literals are not NaN in the column's precision,
+    * `hepoch` : Epoch literals denote instants representable in int64 nanoseconds,
     * `hrange` : stored stamps are representable as int64 nanoseconds,
     * `hspeaks`: the property assigns a truth value to every row (no NaN stored, …),
 
     `SELECT * … WHERE conj` returns exactly the stored rows satisfying the conjunction, in time
-    order. -/
+    order — whatever the literal form of the Epoch bounds (datetime, seconds, nanoseconds),
+    inclusive or exclusive, on or off a stored bar. -/
 theorem C19_partial (tf : Int) (cols : List ColDef) (hist : List (List Row)) (conj : List Conj)
     (htf : 0 < tf) (hd : tf ≠ dayNs) (hsec : tf % 1000000000 = 0)
     (wf : WellFormed cols conj)
     (hfit : ∀ c ∈ conj, c.col ≠ "Epoch" → ∀ d ∈ cols, d.name = c.col → ∀ l ∈ c.lits, Fits d.ty l)
-    (hepoch : ∀ c ∈ conj, c.col = "Epoch" → EpochOK (specAll tf hist) c.pending)
+    (hepoch : ∀ c ∈ conj, c.col = "Epoch" → ∀ l ∈ c.lits, LitRange l.asI64)
     (hrange : ∀ r ∈ specAll tf hist, NsRange r.sec)
     (hspeaks : Speaks tf cols hist conj) :
     selectWhere tf cols (applyHist tf hist) conj = specWhere tf cols hist conj := by
   have hall := C08.C08_subday tf hist htf hd
-  -- the Epoch predicate of the compiled group is the pending predicate of the Epoch conjunct
-  have hg : ∀ sp, (buildGroup conj).get "Epoch" = some sp → EpochOK (specAll tf hist) sp := by
-    intro sp hsp
-    rw [buildGroup_nodup conj wf.onePerColumn, get_map_pending] at hsp
-    cases hf : conj.find? (fun c => c.col == "Epoch") with
-    | none => simp [hf] at hsp
-    | some c =>
-      simp only [hf, Option.map_some, Option.some.injEq] at hsp
-      obtain ⟨hm, hn⟩ := find?_name_eq conj Conj.col "Epoch" c hf
-      exact hsp ▸ hepoch c hm hn
   unfold selectWhere specWhere selectRows readRows
   simp only [bne_self_eq_false, Bool.and_false, Bool.false_eq_true, if_false]
-  rw [postFilter_eq_filter _ _ _ (fun sp h => (hg sp h).stable),
-    filter_pushdown tf hist cols _ htf hd hsec (by rw [hall]; exact hrange) (by rw [hall]; exact hg), hall]
+  rw [postFilter_eq_filter,
+    filter_pushdown tf hist cols _ htf hd hsec (by rw [hall]; exact hrange), hall]
   apply List.filter_congr
   intro r hr
   have hsome : ∃ x, satAll cols conj r = some x := by
@@ -200,8 +230,7 @@ theorem C19_partial (tf : Int) (cols : List ColDef) (hist : List (List Row)) (co
   obtain ⟨x, hx⟩ := hsome
   have hok : ∀ c ∈ conj, ConjOK cols c r := by
     intro c hc
-    refine ⟨fun hE => ⟨fun l hl => (hepoch c hc hE).ns l (lits_of_pending c l hl), hrange r hr⟩,
-      fun hE d hd hdn l hl => hfit c hc hE d hd hdn l hl⟩
+    exact ⟨fun hE => ⟨hepoch c hc hE, hrange r hr⟩, fun hE d hd hdn l hl => hfit c hc hE d hd hdn l hl⟩
   rw [keepRow_sat cols conj r x wf hok hx, hx]
   cases x <;> rfl
 
@@ -217,21 +246,17 @@ theorem C19_partial_values (tf : Int) (cols : List ColDef) (hist : List (List Ro
     (fun c hc hE => absurd hE (hno c hc)) hrange hspeaks
 
 /-! ## non-vacuity: the hypotheses of `C19_partial` hold for a non-trivial statement
-    (`A >= 2 AND Epoch < '2020-03-01-10:03'` on the witness bucket) and the result is not empty -/
+    (`A >= 2 AND Epoch <= 1583056920` — inclusive, in epoch seconds, exactly on a stored bar) and the
+    result is not empty -/
 example : selectWhere wTf wCols (applyHist wTf wHist)
-    [.cmp "A" .ge (.int 2), .cmp "Epoch" .lt (.int 1583056980000000000)]
+    [.cmp "A" .ge (.int 2), .cmp "Epoch" .le (.int 1583056920)]
     = [⟨1583056860, [2,0,0,0]⟩, ⟨1583056920, [3,0,0,0]⟩] := by decide
 
-example : WellFormed wCols [.cmp "A" .ge (.int 2), .cmp "Epoch" .lt (.int 1583056980000000000)] :=
+example : WellFormed wCols [.cmp "A" .ge (.int 2), .cmp "Epoch" .le (.int 1583056920)] :=
   ⟨by decide, by decide, by decide, by decide⟩
 
-example : Fits .i32 (.int 2) := ⟨2, rfl, by decide, by decide⟩
+example : Fits .i32 (.int 2) := ⟨2, rfl⟩
 
-example : EpochOK (specAll wTf wHist) (Conj.cmp "Epoch" .lt (.int 1583056980000000000)).pending :=
-  ⟨by intro l h
-      have : l = .int 1583056980000000000 := by
-        rcases h with h | h | h <;> simp [Conj.pending, SP.addComparison, SP.setMax] at h <;> exact h.symm
-      subst this; decide,
-   by intro h; exact absurd h (by decide)⟩
+example : LitRange (Lit.int 1583056920).asI64 := Or.inr (by decide)
 
 end Mkts.Props.C19
